@@ -113,7 +113,7 @@ CHECKS = {
         technique="metamorphic translation validation: real assembler run natively per (graph, partition); go/ssa symbolic execution of the multi-processor simulator on symbolic inputs vs. the dataflow expression, decided by z3"),
     "C08": dict(
         category="proof",
-        text=("(a) Decided on the regular languages themselves: the real matcher registry (AllMatchers after init plus one member of each "
+        text=("Bounded (strings up to 64 characters, widths and bit counts of the stated family; not an unbounded proof). (a) Decided on the regular languages themselves: the real matcher registry (AllMatchers after init plus one member of each "
               "dynamic family, dumped by interpreting the current source) is translated to SMT-LIB regular languages and, for EVERY unordered "
               "pair of patterns, the solver shows that no ASCII string of length <= 64 is in both (z3; z3 5.1 and cvc5 cross-check in the "
               "thorough tier); a witness is replayed against the real registry. (b) For types bin, hex and unsigned, per (width, number of "
@@ -155,7 +155,7 @@ CHECKS = {
         design="DESIGN.md section 3, C10"),
     "C11": dict(
         category="proof",
-        text=("The real Machine.Jsoner/Dejsoner, Bondmachine.Jsoner/Dejsoner, EventuallyCreateInstruction and every shared object's "
+        text=("Bounded (list lengths, string lengths and opcode names concrete per configuration; all field values symbolic; not an unbounded proof). The real Machine.Jsoner/Dejsoner, Bondmachine.Jsoner/Dejsoner, EventuallyCreateInstruction and every shared object's "
               "Instantiate/String are executed symbolically on machines whose scalar fields, strings, program words, bond triples, links, "
               "processor indices and shared-object parameters are solver variables (list lengths and opcode names concrete per "
               "configuration: all 94 static opcodes, 8 dynamically created ones, all 9 shared-object kinds). z3 decides that the reloaded "
@@ -187,7 +187,7 @@ CHECKS = {
         technique="generated Verilog -> transition relation over bit-vectors (own translator); inductive-step, reset and unrolled bounded-response obligations decided by z3"),
     "C14": dict(
         category="proof",
-        text=("GATE PLACEMENT FOR ARBITRARY GATES, IN EXACT ARITHMETIC. BmQSimulator.MatrixFromOp is redirected to a stub whose matrix entries are "
+        text=("Bounded (enumerated placements on up to 4 qubits, enumerated circuits; all gate entries symbolic; not an unbounded proof). GATE PLACEMENT FOR ARBITRARY GATES, IN EXACT ARITHMETIC. BmQSimulator.MatrixFromOp is redirected to a stub whose matrix entries are "
               "solver variables (real and imaginary part), and BmMatrixFromOperation, swaps2baseSwaps, TensorProductComplex, SwapRowsColsComplex, "
               "QasmToBmMatrices, RunSoftwareSimulation and MatrixVectorProductComplex are executed symbolically with float32 read as exact reals. "
               "z3 decides, entry by entry (a polynomial identity in the gate entries): the matrix emitted for a layer equals the operator defined "
@@ -203,7 +203,7 @@ CHECKS = {
         technique="go/ssa symbolic execution with gate matrices as symbolic reals; entrywise polynomial identities against the defined operator decided by z3 (NRA)"),
     "C15": dict(
         category="proof",
-        text=("Parts 1 and 2 of the design, decided by SMT: for each of the 14 rule forms and each enumerated object/extra length, with field "
+        text=("Bounded (rule forms, field lengths and list lengths enumerated; field bytes, ticks, values and flags symbolic; not an unbounded proof). Parts 1 and 2 of the design, decided by SMT: for each of the 14 rule forms and each enumerated object/extra length, with field "
               "bytes, tick and flags as solver variables, Add(String(r)) succeeds and appends exactly r (not suspended), and printing the "
               "parsed rule gives the same text; every accepted short form (default extra) re-parses to the same rule after printing; "
               "Del/Suspend/Reactivate with a symbolic index on lists of up to 3 (thorough: 5) rules change only the addressed rule, keep the "
